@@ -274,6 +274,15 @@ pub struct TypedCase {
     pub assertion: BytesSpec,
 }
 
+/// an application's claims: the registered ones embedded with #[serde(flatten)] next to its own
+#[derive(Clone, Serialize, Deserialize)]
+struct Session {
+    #[serde(flatten)]
+    registered: paseto_json::RegisteredClaims,
+    role: String,
+    n: i64,
+}
+
 #[derive(Clone, Debug, Serialize, Deserialize, PartialEq)]
 struct Kid {
     kid: String,
@@ -317,11 +326,21 @@ fn typed_case<B: Backend>(c: &TypedCase, acc: &mut Acc) -> R {
         iat: paseto_json::jiff::Timestamp::new(0, 1).ok(),
         jti: Some("\u{0}\"\\".to_string()),
     };
+    // all seven registered claims present (embedded in an application struct by shape 5)
+    let full_claims = RegisteredClaims {
+        iss: Some(c.text.clone()),
+        sub: Some("subject".into()),
+        aud: Some(String::new()),
+        exp: paseto_json::jiff::Timestamp::new(c.n.rem_euclid(4_000_000_000), 5).ok(),
+        nbf: paseto_json::jiff::Timestamp::new(1, 0).ok(),
+        iat: paseto_json::jiff::Timestamp::new(0, 1).ok(),
+        jti: Some(format!("id-{}", c.n)),
+    };
     let hm_payload = || (0..12i64).map(|i| (format!("k{i}-{}", c.n), i ^ c.n)).collect::<std::collections::HashMap<String, i64>>();
     let hm_footer = || (0..12i64).map(|i| (format!("f{i}"), format!("{}{i}", c.text.chars().take(8).collect::<String>()))).collect::<std::collections::HashMap<String, String>>();
     macro_rules! go {
         ($P:ty, $sk:expr, $uk:expr) => {
-            match c.shape % 5 {
+            match c.shape % 6 {
                 0 => typed_roundtrip::<B, $P, Json<serde_json::Value>, ()>(c, &$sk, &$uk, || Json(val.clone()), || (), |a, _| a.0 == val),
                 1 => typed_roundtrip::<B, $P, Json<serde_json::Value>, Json<serde_json::Value>>(c, &$sk, &$uk, || Json(val.clone()), || Json(fval.clone()), |a, f| a.0 == val && f.0 == fval),
                 2 => typed_roundtrip::<B, $P, RegisteredClaims, Json<Kid>>(c, &$sk, &$uk, || claims.clone(), || Json(Kid { kid: c.text.clone(), n: c.n }), |a, f| {
@@ -329,6 +348,10 @@ fn typed_case<B: Backend>(c: &TypedCase, acc: &mut Acc) -> R {
                     a.iss == b.iss && a.sub == b.sub && a.aud == b.aud && a.exp == b.exp && a.nbf == b.nbf && a.iat == b.iat && a.jti == b.jti && f.0 == Kid { kid: c.text.clone(), n: c.n }
                 }),
                 3 => typed_roundtrip::<B, $P, Json<serde_json::Value>, Vec<u8>>(c, &$sk, &$uk, || Json(val.clone()), || c.text.as_bytes().to_vec(), |a, f| a.0 == val && f == c.text.as_bytes()),
+                5 => typed_roundtrip::<B, $P, Json<Session>, Json<Kid>>(c, &$sk, &$uk, || Json(Session { registered: full_claims.clone(), role: c.text.clone(), n: c.n }), || Json(Kid { kid: c.text.clone(), n: c.n }), |a, _| {
+                    let (x, y) = (&a.0.registered, &full_claims);
+                    a.0.role == c.text && a.0.n == c.n && x.iss == y.iss && x.sub == y.sub && x.aud == y.aud && x.exp == y.exp && x.nbf == y.nbf && x.iat == y.iat && x.jti == y.jti
+                }),
                 // a footer / payload whose serialisation is not deterministic: every HashMap instance has
                 // its own iteration order, so encode(decode(bytes)) != bytes in general
                 _ => typed_roundtrip::<B, $P, Json<std::collections::HashMap<String, i64>>, Json<std::collections::HashMap<String, String>>>(c, &$sk, &$uk, || Json(hm_payload()), || Json(hm_footer()), |a, f| a.0 == hm_payload() && f.0 == hm_footer()),
@@ -345,11 +368,11 @@ fn typed_case<B: Backend>(c: &TypedCase, acc: &mut Acc) -> R {
     };
     r?;
     acc.eval();
-    acc.nt(hash_of(&(c.public, &c.key, c.shape % 5, &c.text, c.n)));
+    acc.nt(hash_of(&(c.public, &c.key, c.shape % 6, &c.text, c.n)));
     if c.text.len() > 8000 {
         acc.class("typed:text>8000-bytes");
     }
-    acc.class(["typed:Json+unit-footer", "typed:Json+Json-footer", "typed:RegisteredClaims+Json<struct>-footer", "typed:Json+bytes-footer", "typed:Json<HashMap>+Json<HashMap>-footer"][(c.shape % 5) as usize]);
+    acc.class(["typed:Json+unit-footer", "typed:Json+Json-footer", "typed:RegisteredClaims+Json<struct>-footer", "typed:Json+bytes-footer", "typed:Json<HashMap>+Json<HashMap>-footer", "typed:Json<struct with flattened RegisteredClaims>"][(c.shape % 6) as usize]);
     Ok(())
 }
 
@@ -364,7 +387,7 @@ fn typed_subs_for<B: Backend>(out: &mut Vec<SubCheck>) {
         4,
         cases,
         |_t| {
-            (any::<bool>(), gen_::key_seed(), 0u8..5, prop_oneof![
+            (any::<bool>(), gen_::key_seed(), 0u8..6, prop_oneof![
                 4 => Just(String::new()).boxed(),
                 8 => "\\PC{0,30}".boxed(),
                 4 => any::<String>().boxed(),
@@ -387,7 +410,7 @@ pub fn def() -> PropertyDef {
     PropertyDef {
         id: "C01",
         level: "exploration",
-        rule: "proptest cases (back end x purpose x key source x payload encoding suffix {none, non-empty} x payload spec x footer x assertion x seal path {library RNG, scripted draw, caller nonce} x entry point {seal/unseal, encrypt|sign[_with_aad], decrypt|verify[_with_aad]}); oracle = round-trip identity + spec payload length + re-serialisation; a second family of cases uses the typed payload / footer types of the public API (Json<Value>, RegisteredClaims, (), Json<Value>, Json<struct> and Json<HashMap> footers; texts up to 100 KiB so typed footers and payloads cross 8 KiB / 64 KiB); non-trivial iff payload longer than one cipher block, or non-empty footer or assertion, or a parsed (not random()) key; distinct by descriptor hash",
+        rule: "proptest cases (back end x purpose x key source x payload encoding suffix {none, non-empty} x payload spec x footer x assertion x seal path {library RNG, scripted draw, caller nonce} x entry point {seal/unseal, encrypt|sign[_with_aad], decrypt|verify[_with_aad]}); oracle = round-trip identity + spec payload length + re-serialisation; a second family of cases uses the typed payload / footer types of the public API (Json<Value>, RegisteredClaims, (), Json<Value>, Json<struct> and Json<HashMap> footers, an application struct embedding RegisteredClaims with #[serde(flatten)]; texts up to 100 KiB so typed footers and payloads cross 8 KiB / 64 KiB); non-trivial iff payload longer than one cipher block, or non-empty footer or assertion, or a parsed (not random()) key; distinct by descriptor hash",
         assumptions: vec![
             "aws-lc and libsodium draw from their own OS-seeded generators (not scripted); rare signature shapes are reached by volume",
             "payload type is a raw-bytes Payload with SUFFIX \"\" (same header as JSON)",
